@@ -151,10 +151,16 @@ def deep_merge_multi_update(dct, merge_dct):
 
 
 def _copy_nested_dicts(value):
-    if isinstance(value, dict):
+    if type(value) is dict:  # pylint: disable=unidiomatic-typecheck
         return {
             key: _copy_nested_dicts(subvalue)
             for key, subvalue in value.items()}
+    if isinstance(value, dict):
+        # a dict subclass (Counter, defaultdict, ...) keeps its type
+        copied = copy.copy(value)
+        for key, subvalue in value.items():
+            copied[key] = _copy_nested_dicts(subvalue)
+        return copied
     return value
 
 
